@@ -23,6 +23,7 @@ import (
 	"github.com/charmbracelet/log"
 
 	"github.com/flamego/flamego"
+	"github.com/flamego/flamego/inject"
 	"github.com/flamego/flamego/verifharness/internal/evid"
 	"github.com/flamego/flamego/verifharness/internal/rt"
 )
@@ -91,6 +92,10 @@ type token struct{ v string }
 type namer interface{ Name() string }
 type svc struct{ name string }
 
+// outerSvc is registered only in a parent of the application's own injector
+// (a process-wide container the application was put under).
+type outerSvc struct{ v string }
+
 func (s *svc) Name() string { return s.name }
 
 // build makes one application; both instances of a round are built by the same code.
@@ -125,6 +130,9 @@ func build(r Round) *flamego.Flame {
 	f.Use(flamego.Logger(), flamego.Recovery(), flamego.Renderer(flamego.RenderOptions{JSONIndent: " "}))
 	f.Use(flamego.Static(flamego.StaticOptions{Directory: assetsDir, Prefix: "/assets", SetETag: true}))
 	f.Map(&svc{"svc-A"})
+	global := inject.New()
+	global.Map(&outerSvc{"outer-O"})
+	f.SetParent(global)
 	for i := 0; i < r.Middleware; i++ {
 		f.Use(func(c flamego.Context) {}) // separate calls: the middleware slice may end up with spare capacity
 	}
@@ -146,7 +154,7 @@ func build(r Round) *flamego.Flame {
 			}
 			yield()
 		}
-		main := func(c flamego.Context, t *token, n namer) string {
+		main := func(c flamego.Context, t *token, n namer, o *outerSvc) string {
 			yield()
 			ps := c.Params()
 			keys := make([]string, 0, len(ps))
@@ -159,7 +167,7 @@ func build(r Round) *flamego.Flame {
 			for _, k := range keys {
 				fmt.Fprintf(&b, "|%s=%s", k, ps[k])
 			}
-			b.WriteString("|token=" + t.v + "|svc=" + n.Name())
+			b.WriteString("|token=" + t.v + "|svc=" + n.Name() + "|outer=" + o.v)
 			if urlName != "" {
 				var pairs []string
 				for _, k := range keys {
@@ -206,6 +214,14 @@ func build(r Round) *flamego.Flame {
 	f.Get("/panic/{why}", func(c flamego.Context) {
 		yield()
 		panic("boom " + c.Param("why"))
+	})
+	// a handler that reads the request body, does something else and then uses
+	// what it read
+	f.Post("/echo/{x}", func(c flamego.Context, t *token) string {
+		data, err := c.Request().Body().Bytes()
+		yield()
+		yield()
+		return fmt.Sprintf("echo|%s|err=%v|token=%s", data, err, t.v)
 	})
 	f.NotFound(func(c flamego.Context, t *token) string {
 		c.ResponseWriter().WriteHeader(http.StatusNotFound)
@@ -265,7 +281,11 @@ func serve(f *flamego.Flame, q Req) (r resp) {
 			r = resp{escaped: fmt.Sprint(p)}
 		}
 	}()
-	f.ServeHTTP(spy, rt.NewRequest(q.M, q.P, h))
+	hreq := rt.NewRequest(q.M, q.P, h)
+	if q.M == "POST" && strings.HasPrefix(q.P, "/echo/") {
+		hreq.Body = io.NopCloser(strings.NewReader(strings.Repeat(q.Token+";", 30)))
+	}
+	f.ServeHTTP(spy, hreq)
 	var hs []string
 	for k, vs := range spy.H {
 		hs = append(hs, k+": "+strings.Join(vs, " | "))
@@ -453,6 +473,9 @@ func genReq(t *rapid.T, n int) Req {
 	case 11:
 		q.P = "/g/" + s() + "/r/" + s()
 		q.M = []string{"GET", "POST"}[rapid.IntRange(0, 1).Draw(t, "cm")]
+	case 19:
+		q.P = "/echo/" + s()
+		q.M = "POST"
 	case 12:
 		q.P = "/nosuch/" + s()
 	case 18:
